@@ -52,6 +52,9 @@ ASSUMPTIONS = [
     "between a watch rebuild and a restart (a restart has extra startup work): the oracle runs with --keep-going, compares "
     "outputs, full graph and return code after every complete phase, and return code plus the states of the attached "
     "nodes after an incomplete one; a phase that drained is compared after the following (settling) rebuild",
+    "the session pairs run with one job slot: with more, a pending step can be dispatched while its pending creator "
+    "re-runs (known C03/C05 behaviour) and the outcome depends on the moment of dispatch, i.e. on the schedule, which "
+    "necessarily differs between a watch rebuild and a restart",
     "edits during a build phase are made in the first phase only, where both directors execute the same code path with "
     "the same schedule, so that the edit falls at the same logical moment in both",
 ]
@@ -190,7 +193,8 @@ def gen_watch_project(r, safe: bool = False):
 
     files = {"src/a.txt": "a v0\n", "src/b.txt": "b v0\n", "mods/one/x.txt": "one\n", "rec/top.md": "top\n",
              "rec/sub/deep.md": "deep\n", "data/x.dat": "x v0\n", "data/y.dat": "y v0\n", "g/x0.in": "g0\n",
-             "data/sub/p.dat": "p v0\n", "data/sub/q.dat": "q v0\n"}
+             "data/sub/p.dat": "p v0\n", "data/sub/q.dat": "q v0\n",
+             "rec/hold/readme.txt": "a directory below the recursive pattern that holds no match yet\n"}
     plan = [A.static("src/a.txt", "src/b.txt", "data/")]
     feats = []
     if r.random() < 0.7:
@@ -250,11 +254,13 @@ def gen_edit(r, files, dirs, root, in_build: bool, safe: bool = False, initial=N
         kinds = ["change", "change", "delete", "del_recreate_same", "del_recreate_diff", "change_restore", "touch",
                  "add_glob", "add_tree_file", "rmtree", "rmtree_recreate", "mkdir_plain", "mkdir_matching",
                  "new_dir_with_file", "move_dir_back", "move_dir", "move_file", "tamper_out", "delete_out",
-                 "create_missing", "delete_create_other", "restore_deleted", "restore_deleted"]
+                 "create_missing", "delete_create_other", "restore_deleted", "restore_deleted",
+                 "new_match_in_existing_dir"]
     if safe:
         # stay away from the four known classes (new / removed / vanished matched directories, a created
         # file that is an undeclared input and a glob match) so that other differences are not masked
-        kinds = [k for k in kinds if k not in ("mkdir_matching", "new_dir_with_file", "move_dir", "create_missing")]
+        kinds = [k for k in kinds if k not in ("mkdir_matching", "new_dir_with_file", "move_dir", "create_missing",
+                                               "new_match_in_existing_dir")]
         topdirs = [d for d in topdirs if d != "mods"]
         subdirs = [d for d in subdirs if not d.startswith("mods")]
     if only_kind is not None:
@@ -288,6 +294,8 @@ def gen_edit(r, files, dirs, root, in_build: bool, safe: bool = False, initial=N
         c = initial[p]
         c = c.decode("utf-8", "replace") if isinstance(c, bytes) else c
         return kind, [("write", p, c if r.random() < 0.5 else c + f"restored {n}\n")]
+    if kind == "new_match_in_existing_dir" and "rec/hold" in dirs:
+        return kind, [("write", f"rec/hold/h{r.randint(0, 2)}.md", f"held {n}\n")]
     if kind == "add_glob":
         return kind, [("write", f"g/n{r.randint(0, 3)}.in", f"new {n}\n")]
     if kind == "add_tree_file":
@@ -390,12 +398,18 @@ def classify(aspects, rW, rR, newdirs, reports_w=(), reports_r=(), exists=lambda
         for d in newdirs:
             if p.rstrip("/") == d or p.startswith(d + "/"):
                 return "watch-new-directory-unreported"
+    if any(p in recent_edits and os.path.dirname(p) not in newdirs for p in upd_r - upd_w):
+        # a file written in this round into a directory that existed before, and no item for it:
+        # the directory is not watched (it held no match when the pattern was registered)
+        return "watch-unwatched-directory-unreported"
     del_r = {d.split(" ")[0] for t, d in list(reports_r) + rR.tags("DELETED") if t == "DELETED"}
     del_w = {d.split(" ")[0] for t, d in list(reports_w) + rW.tags("DELETED") if t == "DELETED"}
     if any(p.endswith("/") and exists(p) for p in del_w - del_r):
         return "watch-new-directory-unreported"  # a directory that came back (moved away and back, re-created)
     if any(p.endswith("/") for p in del_r - del_w):
         return "watch-removed-directory-unreported"
+    if aspects == ["graph"] and digest_only(rW, rR):
+        return "watch-differs:inp_digest-only"
     if aspects == ["graph"] and order_only(rW, rR):
         return "watch-differs:external-update-order"
     stale = {p for p in (upd_r | del_r) - (upd_w | del_w) if p in old_edits and p not in recent_edits}
@@ -404,6 +418,13 @@ def classify(aspects, rW, rR, newdirs, reports_w=(), reports_r=(), exists=lambda
         # detached, so that neither director cared then) and that the watcher has no item for
         return "watch-differs:change-while-detached"
     return "watch-differs:" + "+".join(aspects)
+
+
+def digest_only(rW, rR) -> bool:
+    """The graphs differ in `inp_digest` lines of steps only (a step that completed while its re-running
+    creator had one of its inputs UNCONFIRMED records a digest that does not cover that input)."""
+    strip = lambda g: "\n".join(ln for ln in (g or "").split("\n") if "inp_digest" not in ln)  # noqa: E731
+    return strip(rW.graph_canon) == strip(rR.graph_canon)
 
 
 def order_only(rW, rR) -> bool:
@@ -559,12 +580,19 @@ def sim_pairs(ctx, ncase: int, salt: str, only: int | None = None, applied_log=N
             model = projgen.gen_model(r, fail_prob=r.choice([0.0, 0.0, 0.2]))
             project = projgen.render(model)
             feats = ["projgen"]
-            kw = {"njob": r.randint(1, 3)}
+            r.randint(1, 3)
+            kw = {"njob": 1}
             if model.resources:
                 kw["resources"] = model.resources
         else:
             project, feats = gen_watch_project(r, safe)
-            kw = {"njob": r.randint(1, 3)}
+            r.randint(1, 3)
+            kw = {"njob": 1}
+        # One job slot: with more, a pending step can be dispatched while its pending creator re-runs
+        # (the known C03/C05 behaviour), and whether it completes before the creator detaches or re-declares
+        # it depends on the moment of the dispatch. A watch rebuild and a restart are two different
+        # schedules (a restart has extra startup work), so that dependence would show up here as a
+        # difference that has nothing to do with watching. With one slot the order is the scheduler's own.
         # a phase that drains stops at a schedule-dependent point; failing steps do not drain with -k
         kw["keep_going"] = True
         nrounds = r.randint(1, 4)
